@@ -37,8 +37,9 @@ class Placement:
 class HeaderOnly:
     """Index record without block data (status has neither HAVE_DATA nor HAVE_UNDO)."""
 
-    def __init__(self, block, height, status=VALID_TREE, ntx=0):
+    def __init__(self, block, height, status=VALID_TREE, ntx=0, nfile=0, undo_pos=8):
         self.block, self.height, self.status, self.ntx = block, height, status, ntx
+        self.nfile, self.undo_pos = nfile, undo_pos     # only serialised when the status carries HAVE_UNDO (undo data kept, block data pruned)
 
 
 def index_value(height, status, ntx, header80, nfile=None, datapos=None, undopos=None, client_version=270000):
@@ -57,7 +58,7 @@ def default_name(n, pad=5):
 
 
 def write_datadir(path, coin, placements, header_only=(), xor_key=None, names=None, extra_keys=(), extra_files=(),
-                  index_opts=None, order=None):
+                  index_opts=None, order=None, symlink_files=()):
     """Writes the directory. placements are written file by file in list order (or `order`: file -> list of indices).
     names: file number -> file name. extra_keys: list of (key bytes, value bytes). extra_files: (name, bytes | None=dir).
     Returns dict with per-file sizes."""
@@ -89,6 +90,16 @@ def write_datadir(path, coin, placements, header_only=(), xor_key=None, names=No
         if any(xor_key):
             for fno in by_file:
                 xor_file(os.path.join(path, names.get(fno, default_name(fno))), xor_key)
+    if symlink_files:
+        # "old block files moved to another disk": the file lives elsewhere under the same name, the data directory holds an absolute
+        # symbolic link to it (xor.dat and index/ stay in the data directory)
+        other = os.path.abspath(path).rstrip("/") + ".elsewhere"
+        os.makedirs(other, exist_ok=True)
+        for fno in symlink_files:
+            if fno in by_file:
+                name = names.get(fno, default_name(fno))
+                os.rename(os.path.join(path, name), os.path.join(other, name))
+                os.symlink(os.path.join(other, name), os.path.join(path, name))
     for name, content in extra_files:
         full = os.path.join(path, name)
         if content is None:
@@ -114,7 +125,7 @@ def write_datadir(path, coin, placements, header_only=(), xor_key=None, names=No
             ntx = vrng.choice([ntx, ntx, 0, 1, 2**32 + 1])
         pairs.append((b"b" + p.block.hash, index_value(p.height, status, ntx, p.block.header(), p.file, p.offset, undo, client_version=cver)))
     for h in header_only:
-        pairs.append((b"b" + h.block.hash, index_value(h.height, h.status, h.ntx, h.block.header())))
+        pairs.append((b"b" + h.block.hash, index_value(h.height, h.status, h.ntx, h.block.header(), h.nfile, None, h.undo_pos)))
     pairs.extend(extra_keys)
     write_index(os.path.join(path, "index"), pairs, **index_opts)
     return {"files": len(by_file), "records": len(pairs)}
